@@ -20,6 +20,7 @@ import (
 	"sort"
 	"strconv"
 	"strings"
+	"unicode/utf8"
 
 	gtypes "github.com/octohelm/gengo/pkg/types"
 
@@ -157,6 +158,13 @@ func runTags(inp *input) core.Result {
 		}
 	}
 	res.Nontrivial = nt > 0 && len(obs.Others) > 0
+	for _, l := range lines {
+		if !utf8.ValidString(l) {
+			res.Class = "invalid_utf8_line"
+			res.Tags = append(res.Tags, "tags:invalid_utf8")
+			break
+		}
+	}
 	res.Tags = append(res.Tags, "kind=tags", fmt.Sprintf("tags:lines=%d", min(len(lines), 8)))
 	if rep {
 		res.Tags = append(res.Tags, "tags:repeated_key")
@@ -442,6 +450,9 @@ func runLayout(inp *input, scratch string) core.Result {
 		if len(on.Tags) > 0 {
 			stats["doc_tags"] = true
 		}
+		if (on.ExpDoc != nil && strings.TrimSpace(*on.ExpDoc) == "") || (on.ExpCmt != nil && strings.TrimSpace(*on.ExpCmt) == "") {
+			stats["empty_comment_text"] = true
+		}
 		obs.Names = append(obs.Names, on)
 		qterms = append(qterms, fmt.Sprintf("mk_query %d %d %s %s %s %s %s", fi, ps.Line, optText(on.ExpDoc), optText(on.ExpCmt),
 			coqTagMap(on.Tags), coqLines(on.Doc), coqLines(on.Comment)))
@@ -453,6 +464,12 @@ func runLayout(inp *input, scratch string) core.Result {
 	}
 	res.Coq = fmt.Sprintf("CLayout %s %s %s", coqItems(events), coqItems(leadTerms), coqItems(qterms))
 	res.Nontrivial = stats["doc"] && stats["trailing"]
+	switch { // input classes (labels for reports; none of them is a known finding once the fixes are in)
+	case stats["empty_comment_text"]:
+		res.Class = "empty_comment_text"
+	case stats["prev_line_trailing_no_doc"]:
+		res.Class = "trailing_comment_on_previous_line"
+	}
 	res.Tags = append(res.Tags, "kind=layout", fmt.Sprintf("layout:files=%d", len(inp.Files)), fmt.Sprintf("layout:names=%d", 10*(len(queries)/10)))
 	for k := range stats {
 		res.Tags = append(res.Tags, "layout:"+k)
